@@ -2,7 +2,7 @@
    some atom is matched by no centre pattern, or by more than one, the call
    fails" - for every scheme and every molecule graph. *)
 From Coq Require Import List NArith ZArith QArith Arith Bool Lia.
-From PG Require Import Common.Strs Graph.Mol Graph.Match Graph.Scheme Graph.Scheme_proofs.
+From PG Require Import Common.Strs Group.GroupName Graph.Mol Graph.Match Graph.Scheme Graph.Scheme_proofs.
 Import ListNotations.
 Local Close Scope Q_scope.
 
@@ -159,3 +159,45 @@ Proof.
   - destruct (assign_centres_unique sch m nm E) as [_ G]. destruct (G a Ha) as (p & Hp & _). rewrite Hp in Hl. simpl in Hl. lia.
   - f_equal. eapply centres_only_pattern_error; eauto.
 Qed.
+
+(* ---------- "each atom with a named centre contributes one group ..." ---------- *)
+Local Open Scope Q_scope.
+(* the group an atom contributes: its centre name with the multiset (C19: canon) of its neighbours' peripheral names *)
+Definition group_of (m : mol) (nm : list (str * str)) (i : nat) : option str :=
+  match nth_error nm i with
+  | Some (csg, _) =>
+      if str_eqb csg s_none then None
+      else Some (canon csg (flat_map (fun bn => match nth_error nm (snd bn) with
+                                                 | Some (_, p) => if str_eqb p s_none then [] else [p]
+                                                 | None => []
+                                                 end) (bonds_of m i)))
+  | None => None
+  end.
+Definition raw_groups (m : mol) (nm : list (str * str)) : dict :=
+  fold_left (fun acc i => match group_of m nm i with Some g => dict_add acc g 1 | None => acc end) (seq 0 (natom m)) [].
+
+Lemma fold_left_ext' {A B} (f g : A -> B -> A) l : (forall a b, f a b = g a b) -> forall a, fold_left f l a = fold_left g l a.
+Proof. intros H. induction l as [|x l IH]; intros a; simpl; [reflexivity|]. rewrite H. apply IH. Qed.
+
+Lemma assign_groups_is sch m nm : assign_groups sch m nm = apply_remaps (s_remaps sch) (raw_groups m nm).
+Proof.
+  unfold assign_groups, raw_groups. f_equal. apply fold_left_ext'. intros acc i. unfold group_of.
+  destruct (nth_error nm i) as [[csg per]|]; [|reflexivity]. destruct (str_eqb csg s_none); reflexivity.
+Qed.
+
+Definition occ (k : str) (o : option str) : Q := match o with Some g => if str_eqb g k then 1 else 0 | None => 0 end.
+
+Lemma fold_groups_count m nm k : forall (l : list nat) (d : dict),
+  dict_get (fold_left (fun acc i => match group_of m nm i with Some g => dict_add acc g 1 | None => acc end) l d) k
+  == dict_get d k + fold_right (fun i s => occ k (group_of m nm i) + s) 0 l.
+Proof.
+  induction l as [|i l IH]; intros d; simpl; [ring|].
+  rewrite IH. destruct (group_of m nm i) as [g|]; simpl.
+  - rewrite dict_add_get. destruct (str_eqb g k); ring.
+  - ring.
+Qed.
+
+(* before the remaps: the count of a group name is the number of atoms that contribute it *)
+Theorem raw_groups_count m nm k :
+  dict_get (raw_groups m nm) k == fold_right (fun i s => occ k (group_of m nm i) + s) 0 (seq 0 (natom m)).
+Proof. unfold raw_groups. rewrite fold_groups_count. simpl. ring. Qed.
